@@ -16,7 +16,7 @@ ASSUMPTIONS = [
     "names never contain the class separator and are never '', '.', '..'",
     "case-insensitive cases use only characters on which str.upper, str.lower, str.casefold and re.IGNORECASE agree",
 ]
-GATES = ["mon.C07.get", "mon.C07.roundtrip_abs", "mon.C07.roundtrip_rel", "C07.err.ResolverError", "C07.err.RootResolverError", "C07.err.ChildResolverError",
+GATES = ["C07.wide_node", "mon.C07.get", "mon.C07.roundtrip_abs", "mon.C07.roundtrip_rel", "C07.err.ResolverError", "C07.err.RootResolverError", "C07.err.ChildResolverError",
          "C07.relaxed_miss_first", "C07.relaxed_miss_middle", "C07.relaxed_miss_last", "C07.ignorecase_hit", "C07.sep_other", "C07.wildcard_chars_in_names", "C07.after_mutation", "C07.option_attributes_reassigned", "C07.tree_with_symlinks", "C07.tuple_valued_pathattr", "C07.falsy_nodes", "C07.int_valued_pathattr", "C07.node_without_path_attribute"]
 
 _CLS = {}
@@ -201,7 +201,11 @@ def run(ctx):
     for r in range(nrand):
         rng = ctx.rng("rand", r)
         n = rng.randint(1, 12)
-        par, _ = gen.random_tree(rng, n)
+        wide = r % 35 == 10 or r % 37 == 6  # nodes with more children than any index / fast-path threshold
+        if wide:
+            n = rng.choice((20, 30, 45))
+            ctx.count("C07.wide_node")
+        par, _ = gen.random_tree(rng, n, rng.choice(("star", "broom", "star")) if wide else None)
         ch = gen.children_of(par)
         sep = seps[r % len(seps)]
         if sep != "/":
